@@ -232,5 +232,5 @@ def strategy():
 
 
 def campaign(col, tier, seed, shard, nshards):
-    n = 2400 if tier == "quick" else 48000
+    n = 2400 if tier == "quick" else 240000
     hyp_campaign(col, strategy(), run_case, max(n // nshards, 100), seed * 100 + shard)
